@@ -15,7 +15,7 @@
 EXTENDS Naturals, Sequences
 
 CoreIds == {"w", "two", "empty", "bsn", "nl", "numstr", "int", "float", "posexp", "t", "null", "ref", "uni", "flow", "chain", "syn", "tens", "qop", "tens3", "slashes", "nlsp", "ann", "ctor1", "holo", "l0", "l2", "l3", "lnest", "lmatrix", "lmap", "lfalsy", "lq", "lslash", "lexpr", "z1", "zpy", "ztrail", "zseal", "zempty"}
-FullIds == {"three", "quote", "bslash", "tab", "truestr", "nullstr", "vsstr", "truedot", "neg", "zero", "one", "fzero", "fone", "big", "exp", "negexp", "bigexp", "intexp", "f1e16", "i1e16", "f17", "finf", "fninf", "f", "ver", "verpre", "var", "vartyped", "ref2b", "path", "hyph", "colon", "pct", "emoji", "alt", "con", "cat", "at", "mixed", "syn3", "slash2", "relpath", "abspath", "docpath", "sjl", "sje", "sjo", "nllead", "ctor2", "ctor0", "ctorop", "ctorops", "stageop", "holoenum", "l1", "lnullmap", "lemptymap", "ltq", "lann", "lpattern", "z4", "ztab", "zblank3", "linf", "l01", "zblank"}
+FullIds == {"three", "quote", "bslash", "tab", "truestr", "nullstr", "vsstr", "truedot", "neg", "zero", "one", "fzero", "fone", "big", "exp", "negexp", "bigexp", "intexp", "f1e16", "i1e16", "f17", "finf", "fninf", "f", "ver", "verpre", "var", "vartyped", "ref2b", "path", "hyph", "colon", "pct", "emoji", "alt", "con", "cat", "at", "mixed", "syn3", "slash2", "relpath", "abspath", "docpath", "sjl", "sje", "sjo", "nllead", "ctor2", "ctor0", "catpath", "ctorop", "ctorops", "stageop", "holoenum", "l1", "lnullmap", "lemptymap", "ltq", "lann", "lpattern", "z4", "ztab", "zblank3", "linf", "l01", "zblank"}
 ValIds == CoreIds \cup FullIds
 ZoneIds == {"z1", "zpy", "z4", "ztrail", "zseal", "zempty", "ztab", "zblank3", "zblank"}
 ListIds == {"holo", "holoenum", "l0", "l1", "l2", "l3", "lnest", "lmatrix", "lmap", "lfalsy", "lnullmap", "lemptymap", "lq", "ltq", "lslash", "lexpr", "lann", "lpattern", "linf", "l01"}
@@ -94,6 +94,7 @@ Abs(v) ==
     [] v = "ctor1" -> [t |-> "str", s |-> "NEVER<A>", xs |-> <<>>]
     [] v = "ctor2" -> [t |-> "str", s |-> "NEVER<A,B>", xs |-> <<>>]
     [] v = "ctor0" -> [t |-> "str", s |-> "FOO<>", xs |-> <<>>]
+    [] v = "catpath" -> [t |-> "str", s |-> "build{U29FA}/dist", xs |-> <<>>]
     [] v = "ctorop" -> [t |-> "str", s |-> "CHECK<lint{U2227}test>", xs |-> <<>>]
     [] v = "ctorops" -> [t |-> "str", s |-> "RULES<fast{U2192}safe,a{U2228}b>", xs |-> <<>>]
     [] v = "stageop" -> [t |-> "str", s |-> "STAGE[x{U2228}y]{U2192}DONE", xs |-> <<>>]
@@ -250,6 +251,10 @@ Spell(v) ==
         <<[k |-> "first", c |-> <<"NEVER", "[", "A", ",", "B", "]">>]>>>>
     [] v = "ctor0" -> <<<<[k |-> "first", c |-> <<"FOO<>">>]>>,
         <<[k |-> "first", c |-> <<"FOO", "[", "]">>]>>>>
+    [] v = "catpath" -> <<<<[k |-> "first", c |-> <<"\"build", "U29FA", "/dist\"">>]>>,
+        <<[k |-> "first", c |-> <<"build", "U29FA", "/dist">>]>>,
+        <<[k |-> "first", c |-> <<"build", " ", "~", "/dist">>]>>,
+        <<[k |-> "first", c |-> <<"build", "~", "/dist">>]>>>>
     [] v = "ctorop" -> <<<<[k |-> "first", c |-> <<"\"CHECK<lint", "U2227", "test>\"">>]>>,
         <<[k |-> "first", c |-> <<"CHECK", "[", "lint", "U2227", "test", "]">>]>>,
         <<[k |-> "first", c |-> <<"CHECK", "[", "lint", "&", "test", "]">>]>>>>
